@@ -37,9 +37,9 @@ import (
 const (
 	workerEnv   = "C27_WORKER"
 	caseTimeout = 20 * time.Second
-	// proven (Properties/C27.v, C27_alloc_proportional): BMP-layer allocation <= 6*L + 5800*(frames+1);
+	// proven (Properties/C27.v, C27_alloc_proportional): BMP-layer allocation <= 8*L + 5800*(frames+1);
 	// the measured figure also contains everything the BGP layer, the RIBs and logging allocate
-	allocPerByte  = 6
+	allocPerByte  = 8
 	allocPerFrame = 5800
 	allocSlack    = 48
 	allocFloor    = 1 << 20
